@@ -79,6 +79,7 @@ type table struct {
 	Servers   []server  `json:"servers"`
 	Startup   startupFacts `json:"startup"`
 	Login     loginFacts   `json:"login"`
+	Sessions  sessionFacts `json:"sessions"`
 }
 
 var (
@@ -275,6 +276,7 @@ func main() {
 			if p.PkgPath == homePath && goos == "linux" {
 				scanStartup(p, &tab.Startup)
 				scanLogin(p, &tab.Login)
+				scanSessionKeys(p, &tab.Sessions)
 			}
 		}
 	}
@@ -817,7 +819,7 @@ func writeOutputs(verif string, tab *table) {
 		fatal("%v", err)
 	}
 	writeIfChanged(filepath.Join(gen, "Routes.v"), []byte(b.String()))
-	writeIfChanged(filepath.Join(gen, "AuthPins.v"), []byte(coqLogin(&tab.Login, strings.TrimSpace(string(rev)))))
+	writeIfChanged(filepath.Join(gen, "AuthPins.v"), []byte(coqLogin(&tab.Login, strings.TrimSpace(string(rev)))+coqSessionKeys(&tab.Sessions)))
 	js, _ := json.MarshalIndent(tab, "", " ")
 	writeIfChanged(filepath.Join(gen, "routes.json"), js)
 	fmt.Printf("routes: %d routes, %d bindings, %d muxes, %d servers\n", len(tab.Routes), len(tab.Bindings), len(tab.Muxes), len(tab.Servers))
